@@ -18,7 +18,7 @@ class _Subst(ast.NodeTransformer):
 
 class SpecMixin:
     SPEC_FUNCS = {"forall", "exists", "forall2", "implies", "iff", "old", "strictly_increasing", "nondecreasing",
-                  "member", "psum", "same", "ite", "unchanged", "is_none", "card", "psum_monotone"}
+                  "member", "psum", "same", "ite", "unchanged", "is_none", "card", "psum_monotone", "mpow", "wsum"}
 
     def parse_spec(self, src):
         if src not in self._spec_cache:
@@ -231,6 +231,36 @@ class SpecMixin:
             z3.ForAll([i], z3.Implies(z3.And(0 <= i, i < n), f(a, i + 1) == f(a, i) + z3.Select(a, i)), patterns=[f(a, i + 1)]),
             f(a, zint(0)) == zero)))
 
+    def _mat_defs(self, st):
+        """Spec functions over the uninterpreted matrix ring, with their defining equations (definitions, not assumptions
+        about the code): mpow(A, k) = A @ ... @ A (k factors, k >= 1); wsum(A, w, k) = sum_{t<k} w[t] * A^(t+1)."""
+        if "mpow" not in self.ufuncs:
+            mp = z3.Function("mpow", MAT, INT, MAT)
+            ws = z3.Function("wsum", MAT, arr_sort("real"), INT, MAT)
+            self.ufuncs["mpow"], self.ufuncs["wsum"] = mp, ws
+        mp, ws = self.ufuncs["mpow"], self.ufuncs["wsum"]
+        if "matdefs" not in self.ufuncs:
+            A, w, k = z3.Const("A!md", MAT), z3.Const("w!md", arr_sort("real")), z3.Int("k!md")
+            self.ufuncs["matdefs"] = [
+                z3.ForAll([A], mp(A, 1) == A),
+                z3.ForAll([A, k], z3.Implies(k >= 1, mp(A, k + 1) == M_MUL(mp(A, k), A)), patterns=[mp(A, k + 1)]),
+                z3.ForAll([A, w], ws(A, w, 1) == M_SMUL(A, z3.Select(w, 0))),
+                z3.ForAll([A, w, k], z3.Implies(k >= 1, ws(A, w, k + 1) == M_ADD(ws(A, w, k), M_SMUL(mp(A, k + 1), z3.Select(w, k)))), patterns=[ws(A, w, k + 1)]),
+            ]
+        axs = self.ufuncs["matdefs"]
+        if not any(axs[0].eq(c) for c in st.pc):
+            st.pc.extend(axs)   # definitions: unconditionally true, not subject to guards
+        return mp, ws
+
+    def spec_mpow(self, node, st):
+        mp, ws = self._mat_defs(st)
+        return Mat(mp(self.eval(node.args[0], st).t, self.eval_int(node.args[1], st)))
+
+    def spec_wsum(self, node, st):
+        mp, ws = self._mat_defs(st)
+        w = self.eval(node.args[1], st)
+        return Mat(ws(self.eval(node.args[0], st).t, self.as_z3_array(st, w), self.eval_int(node.args[2], st)))
+
     def spec_same(self, node, st):
         """same(a, b): the two expressions denote the same heap object."""
         a = self.eval(node.args[0], st)
@@ -253,6 +283,10 @@ class SpecMixin:
                                      qall([k], z3.Implies(z3.And(k >= 0, k < o0.n), z3.Select(o1.a, k) == z3.Select(o0.a, k)))))
         if isinstance(o1, HDict):
             return Sc("bool", z3.And(o1.dom == o0.dom, o1.val == o0.val, o1.size == o0.size))
+        if isinstance(o1, HListTup):
+            k = fresh("k", INT)
+            return Sc("bool", z3.And(now.ref == then.ref, o1.n == o0.n, z3.ForAll([k], z3.Implies(z3.And(k >= 0, k < o0.n),
+                      z3.And(*[z3.Select(c1, k) == z3.Select(c0, k) for c1, c0 in zip(o1.cols, o0.cols)])))))
         raise VCError("unchanged() of %r" % o1)
 
     def spec_card(self, node, st):
@@ -266,6 +300,8 @@ class SpecMixin:
             return Sc(ty, fresh(prefix, SORTS[ty]))
         if ty == "none":
             return NONE
+        if ty == "mat":
+            return Mat(fresh(prefix, MAT))
         if ty.startswith("struct{") and ty.endswith("}"):
             fields = [f.strip().split(":") for f in ty[7:-1].split(",")]
             return Tup([self.make_value(t.strip(), st, "%s_%s" % (prefix, n.strip())) for n, t in fields], [n.strip() for n, t in fields], "struct")
@@ -306,8 +342,10 @@ class SpecMixin:
                                 pats=[z3.Select(z3.Select(o.a, j), k)]))
             return st.alloc(o)
         if ty.startswith("list[(") and ty.endswith(")]"):
-            kinds = [k.strip() for k in ty[6:-2].split(",")]
-            o = HListTup(kinds, [fresh(prefix, arr_sort(k)) for k in kinds], fresh(prefix + "_n", INT))
+            parts = [k.strip() for k in ty[6:-2].split(",")]
+            names = [p.split(":")[0].strip() for p in parts] if all(":" in p for p in parts) else None
+            kinds = [p.split(":")[-1].strip() for p in parts]
+            o = HListTup(kinds, [fresh(prefix, arr_sort(k)) for k in kinds], fresh(prefix + "_n", INT), names)
             st.assume(o.n >= 0)
             return st.alloc(o)
         if ty.startswith("dict[") and ty.endswith("]"):
